@@ -426,7 +426,6 @@ example : resolve 6 [2, -1] = .ok [2, 3] ∧ resolve 6 [-3, 2] = .ok [3, 2] ∧ 
    `swap_axes_is_reindex`, `roll_axis_is_reindex`, `reshape_is_reindex` are this statement for the two NumPy
    calls each function makes; `swapNorm_idem`, `rollNorm_idem`, `moveNorm_idem`, `effRank_idem` are what makes
    the derivative recursion use the same `p`; `construct_ok`, `suitableMask_at` cover the constructor.
-   FULL (not proved): IsPerm n (movePerm n src dst) for several source axes at once.
    FULL (not proved): resolve (size lead * size item) (shape ++ ofNats item) = (resolve (size lead) shape).map (· ++ item). -/
 
 /-! ## 3. bijectivity: nothing lost, nothing duplicated -/
@@ -534,6 +533,102 @@ theorem transpose_mask_count {n : Nat} (m : Arr Bool) (p : List Nat) (hp : IsPer
       = ((indices (permute p m.shape)).map (unpermute p)).map m.get := by rw [List.map_map]; rfl
   rw [e]
   exact (hperm.map m.get).countP_eq _
+
+/-! ## 5b. item-axis transposes act on the item part of the index only -/
+
+/-- an order that keeps the `L` leading axes in place and permutes the item axes by `q` -/
+def itemOrder (L : Nat) (q : List Nat) : List Nat := List.range L ++ q.map (L + ·)
+
+theorem permute_item_shape {m : Nat} {q : List Nat} (s t : List Nat) (_hq : IsPerm m q) (_ht : t.length = m) :
+    permute (itemOrder s.length q) (s ++ t) = s ++ permute q t := by
+  unfold permute itemOrder
+  rw [List.map_append]
+  congr 1
+  · apply List.ext_getElem (by simp)
+    intro k h1 h2
+    simp only [List.getElem_map, List.getElem_range]
+    rw [getD_append_left _ _ _ h2, getD_of_lt _ _ h2]
+  · rw [List.map_map]
+    apply List.map_congr_left
+    intro y _
+    simp only [Function.comp]
+    exact getD_append_right s t y
+
+theorem unpermute_item_index {m : Nat} {q : List Nat} (i k : List Nat) (hq : IsPerm m q) (_hk : k.length = m) :
+    unpermute (itemOrder i.length q) (i ++ k) = i ++ unpermute q k := by
+  have hl := hq.1
+  unfold unpermute
+  have hlen : (itemOrder i.length q).length = i.length + q.length := by simp [itemOrder]
+  rw [hlen, List.range_add, List.map_append]
+  congr 1
+  · apply List.ext_getElem (by simp)
+    intro x h1 h2
+    simp only [List.getElem_map, List.getElem_range]
+    have hmem : x ∈ List.range i.length := List.mem_range.2 h2
+    have hidx : (List.range i.length).idxOf x = x := by
+      have : (List.range i.length)[x]'(by simpa using h2) = x := by simp
+      conv => lhs; rw [← this]
+      exact List.nodup_range.idxOf_getElem _ _
+    unfold itemOrder
+    rw [List.idxOf_append_of_mem hmem, hidx, getD_append_left _ _ _ h2, getD_of_lt _ _ h2]
+  · rw [List.map_map]
+    apply List.map_congr_left
+    intro y hy
+    have hy' : y < m := hl ▸ List.mem_range.1 hy
+    simp only [Function.comp]
+    have hnot : i.length + y ∉ List.range i.length := by simp
+    have hmemq : y ∈ q := hq.mem hy'
+    have hj : q.idxOf y < q.length := List.idxOf_lt_length_of_mem hmemq
+    have hnd : (q.map (i.length + ·)).Nodup := hq.2.1.map (fun a b h => by omega)
+    have hidx : (q.map (i.length + ·)).idxOf (i.length + y) = q.idxOf y := by
+      have hlt : q.idxOf y < (q.map (i.length + ·)).length := by simpa using hj
+      have hget : (q.map (i.length + ·))[q.idxOf y] = i.length + y := by
+        simp [List.getElem_idxOf hj]
+      conv => lhs; rw [← hget]
+      exact hnd.idxOf_getElem _ _
+    unfold itemOrder
+    rw [List.idxOf_append_of_notMem hnot, hidx, List.length_range, getD_append_right]
+
+theorem swapPerm_item (L m a b : Nat) (_ha : a < m) (_hb : b < m) :
+    swapPerm (L + m) (L + a) (L + b) = itemOrder L (swapPerm m a b) := by
+  unfold itemOrder
+  rw [swapPerm_eq, swapPerm_eq, List.range_add, List.map_append, List.map_map, List.map_map]
+  congr 1
+  · conv => rhs; rw [← List.map_id (List.range L)]
+    apply List.map_congr_left
+    intro k hk
+    have := List.mem_range.1 hk
+    simp only [id, swapFn]
+    split <;> (try split) <;> omega
+  · apply List.map_congr_left
+    intro k _
+    simp only [Function.comp, swapFn]
+    split <;> (try split) <;> (try split) <;> (try split) <;> omega
+
+/-- op_is_reindex for `transpose_numer` / `transpose_denom` (item part): the NumPy call the code makes,
+    `np.swapaxes(values, len(shape)+a1, len(shape)+a2)`, permutes the ITEM index only — the leading index `i`
+    is untouched, so the mask (handed over as is) still belongs to the same elements. -/
+theorem transpose_items_is_reindex {α} (vals : Arr α) (shape item : Shape) (a1 a2 : Nat)
+    (hv : vals.shape = shape ++ item) (h1 : a1 < item.length) (h2 : a2 < item.length) :
+    ∃ q, IsPerm item.length q ∧ ∃ v',
+      NpShape.swapaxes vals ((shape.length + a1 : Nat) : Int) ((shape.length + a2 : Nat) : Int) = .ok v' ∧
+      v'.shape = shape ++ permute q item ∧
+      ∀ i k : Index, i.length = shape.length → k.length = item.length →
+        v'.get (i ++ k) = vals.get (i ++ unpermute q k) := by
+  have hq := swapPerm_isPerm h1 h2
+  have hL : vals.shape.length = shape.length + item.length := by rw [hv, List.length_append]
+  have e1 : NpShape.normAxis vals.shape.length ((shape.length + a1 : Nat) : Int) = .ok (shape.length + a1) := by
+    have := normAxis_of_nonneg (n := vals.shape.length) (b := ((shape.length + a1 : Nat) : Int)) (by omega) (by rw [hL]; omega)
+    rwa [Int.toNat_natCast] at this
+  have e2 : NpShape.normAxis vals.shape.length ((shape.length + a2 : Nat) : Int) = .ok (shape.length + a2) := by
+    have := normAxis_of_nonneg (n := vals.shape.length) (b := ((shape.length + a2 : Nat) : Int)) (by omega) (by rw [hL]; omega)
+    rwa [Int.toNat_natCast] at this
+  refine ⟨swapPerm item.length a1 a2, hq, _, swapaxes_ok vals e1 e2, ?_, ?_⟩
+  · show permute _ vals.shape = _
+    rw [hL, swapPerm_item _ _ _ _ h1 h2, hv, permute_item_shape shape item hq rfl]
+  · intro i k hi hk
+    show vals.get (unpermute _ (i ++ k)) = _
+    rw [hL, swapPerm_item _ _ _ _ h1 h2, ← hi, unpermute_item_index i k hq hk]
 
 /-! ## 6. item restructuring: join_items / split_items / casts re-label the item axes and touch nothing else -/
 
